@@ -76,6 +76,15 @@ def make_cases(ctx, rng):
         if mode == "stream":
             c["ops"] = rand_ops(rng, len(x))
         cases.append(c)
+    # corpus: sub-blocks (ZSTD_c_targetCBlockSize) whose first sub-block has no literals, long lengths through the sub-block
+    # splitter, Huffman table re-use across blocks, almost-RLE blocks: every emitted frame must be accepted by the strict decoder
+    for j, (kind, sz, p) in enumerate((("matchlead", 2 * 131072 + 3000, {"level": 5, "targetCBlockSize": 1340}),
+                                       ("matchlead", 2 * 131072 + 3000, {"level": 9, "targetCBlockSize": 2000}),
+                                       ("matchlead", 3 * 131072, {"level": 12, "targetCBlockSize": 1340, "checksum": 1}),
+                                       ("longlen", 131072, {"level": 3, "targetCBlockSize": 1340}),
+                                       ("hufrepeat", 2 * 131072 + 5000, {"level": 3}),
+                                       ("nearrle", 131072 + 1000, {"level": 1}))):
+        cases.append(dict(id="M%d" % j, kind=kind, x=codec.gen_input(rng, kind, sz), params=p, mode="oneshot", dict=None, dictmode="-"))
     return cases
 
 
